@@ -35,6 +35,48 @@ struct Cv;
 impl Close for Cv { fn close(&self) -> f64 { 0.0 } }
 impl Volume for Cv { fn volume(&self) -> f64 { 0.0 } }
 
+// A bar type that BORROWS its data (a view into a row of a price table): it is not 'static.  The contract is
+// "Next<&T> for ANY T providing the price traits", which includes such views; an impl that quietly demands
+// `T: 'static` (e.g. because it erases T behind a `dyn` object) still accepts every owning type above.
+// One view per set of price traits, so that each indicator is given exactly the traits it needs and nothing more.
+#[derive(Clone, Copy)]
+struct RowC<'a> { row: &'a [f64; 5] }
+impl<'a> Close for RowC<'a> { fn close(&self) -> f64 { self.row[3] } }
+#[derive(Clone, Copy)]
+struct RowL<'a> { row: &'a [f64; 5] }
+impl<'a> Low for RowL<'a> { fn low(&self) -> f64 { self.row[2] } }
+#[derive(Clone, Copy)]
+struct RowH<'a> { row: &'a [f64; 5] }
+impl<'a> High for RowH<'a> { fn high(&self) -> f64 { self.row[1] } }
+#[derive(Clone, Copy)]
+struct RowHlc<'a> { row: &'a [f64; 5] }
+impl<'a> High for RowHlc<'a> { fn high(&self) -> f64 { self.row[1] } }
+impl<'a> Low for RowHlc<'a> { fn low(&self) -> f64 { self.row[2] } }
+impl<'a> Close for RowHlc<'a> { fn close(&self) -> f64 { self.row[3] } }
+#[derive(Clone, Copy)]
+struct RowHlcv<'a> { row: &'a [f64; 5] }
+impl<'a> High for RowHlcv<'a> { fn high(&self) -> f64 { self.row[1] } }
+impl<'a> Low for RowHlcv<'a> { fn low(&self) -> f64 { self.row[2] } }
+impl<'a> Close for RowHlcv<'a> { fn close(&self) -> f64 { self.row[3] } }
+impl<'a> Volume for RowHlcv<'a> { fn volume(&self) -> f64 { self.row[4] } }
+#[derive(Clone, Copy)]
+struct RowCv<'a> { row: &'a [f64; 5] }
+impl<'a> Close for RowCv<'a> { fn close(&self) -> f64 { self.row[3] } }
+impl<'a> Volume for RowCv<'a> { fn volume(&self) -> f64 { self.row[4] } }
+/// all five price traits, borrowed (what a generic client that knows nothing about the indicator passes)
+#[derive(Clone, Copy)]
+struct RowView<'a> { row: &'a [f64; 5] }
+impl<'a> Open for RowView<'a> { fn open(&self) -> f64 { self.row[0] } }
+impl<'a> High for RowView<'a> { fn high(&self) -> f64 { self.row[1] } }
+impl<'a> Low for RowView<'a> { fn low(&self) -> f64 { self.row[2] } }
+impl<'a> Close for RowView<'a> { fn close(&self) -> f64 { self.row[3] } }
+impl<'a> Volume for RowView<'a> { fn volume(&self) -> f64 { self.row[4] } }
+
+/// the bound, for a view type whose lifetime parameter is the caller's (non-'static) `'a`, and a real call through it
+fn next_borrowed<'r, 'a: 'r, T: Next<&'r U> + Default, U: 'a>(u: &'r U) -> <T as Next<&'r U>>::Output {
+    T::default().next(u)
+}
+
 macro_rules! all_indicators {
     ($m:ident) => {
         $m!(SimpleMovingAverage); $m!(ExponentialMovingAverage); $m!(WeightedMovingAverage); $m!(StandardDeviation);
@@ -43,6 +85,42 @@ macro_rules! all_indicators {
         $m!(PercentagePriceOscillator); $m!(CommodityChannelIndex); $m!(EfficiencyRatio); $m!(BollingerBands);
         $m!(ChandelierExit); $m!(KeltnerChannel); $m!(RateOfChange); $m!(MoneyFlowIndex); $m!(OnBalanceVolume);
     };
+}
+
+/// Every indicator with a bar path, fed views that borrow from `row` for a lifetime `'a` chosen by the CALLER (so the
+/// body must type-check for every `'a`, in particular for non-'static ones).
+pub fn borrowed_bars<'a>(row: &'a [f64; 5]) {
+    let (c, l, h) = (RowC::<'a> { row }, RowL::<'a> { row }, RowH::<'a> { row });
+    let (hlc, hlcv, cv, all) = (RowHlc::<'a> { row }, RowHlcv::<'a> { row }, RowCv::<'a> { row }, RowView::<'a> { row });
+    // exactly the needed price traits
+    macro_rules! close_only { ($($t:ty),*) => { $( let _ = next_borrowed::<$t, RowC<'a>>(&c); )* }; }
+    close_only!(SimpleMovingAverage, ExponentialMovingAverage, WeightedMovingAverage, StandardDeviation, MeanAbsoluteDeviation,
+        RelativeStrengthIndex, MovingAverageConvergenceDivergence, PercentagePriceOscillator, EfficiencyRatio, BollingerBands, RateOfChange);
+    let _ = next_borrowed::<Minimum, RowL<'a>>(&l);
+    let _ = next_borrowed::<Maximum, RowH<'a>>(&h);
+    macro_rules! hlc_only { ($($t:ty),*) => { $( let _ = next_borrowed::<$t, RowHlc<'a>>(&hlc); )* }; }
+    hlc_only!(FastStochastic, SlowStochastic, TrueRange, AverageTrueRange, KeltnerChannel, ChandelierExit, CommodityChannelIndex);
+    let _ = next_borrowed::<MoneyFlowIndex, RowHlcv<'a>>(&hlcv);
+    let _ = next_borrowed::<OnBalanceVolume, RowCv<'a>>(&cv);
+    // and the full view, for all 22
+    macro_rules! full { ($t:ty) => { let _ = next_borrowed::<$t, RowView<'a>>(&all); }; }
+    all_indicators!(full);
+    // a view created and dropped inside a loop over locally owned rows (the shortest possible lifetime)
+    let table: Vec<[f64; 5]> = vec![*row; 3];
+    let (mut atr, mut tr, mut kc, mut ce) = (AverageTrueRange::default(), TrueRange::default(), KeltnerChannel::default(), ChandelierExit::default());
+    let (mut cci, mut mfi, mut obv, mut fast, mut slow) = (CommodityChannelIndex::default(), MoneyFlowIndex::default(), OnBalanceVolume::default(), FastStochastic::default(), SlowStochastic::default());
+    for r in table.iter() {
+        let v = RowView { row: r };
+        let _ = atr.next(&v);
+        let _ = tr.next(&v);
+        let _ = kc.next(&v);
+        let _ = ce.next(&v);
+        let _ = cci.next(&v);
+        let _ = mfi.next(&v);
+        let _ = obv.next(&v);
+        let _ = fast.next(&v);
+        let _ = slow.next(&v);
+    }
 }
 
 pub fn assertions() {
@@ -82,10 +160,29 @@ pub fn assertions() {
     let _: (f64, f64, f64) = MovingAverageConvergenceDivergenceOutput { macd: 0.0, signal: 0.0, histogram: 0.0 }.into();
     let _: (f64, f64, f64) = PercentagePriceOscillatorOutput { ppo: 0.0, signal: 0.0, histogram: 0.0 }.into();
     let _: (f64, f64) = ChandelierExitOutput { long: 0.0, short: 0.0 }.into();
-    // TaError is a std Error that is Clone + Eq + Send + Sync
-    fn err<T: std::error::Error + Clone + Eq + Send + Sync + 'static>() {}
+    // TaError is a std Error (hence Debug + Display) that is Clone + Eq (hence PartialEq) + Send + Sync; it is stored in
+    // `Box<dyn Error + Send + Sync + 'static>` by clients, so 'static is part of the contract.  Each bound is asserted on
+    // its own as well, so that the compiler names the one that was lost.
+    fn err<T: std::error::Error + Clone + PartialEq + Eq + Debug + Display + Send + Sync + 'static>() {}
     err::<TaError>();
-    // DataItem provides all five price traits
+    fn is_error<T: std::error::Error>() {}
+    fn is_clone<T: Clone>() {}
+    fn is_partial_eq<T: PartialEq>() {}
+    fn is_eq<T: Eq>() {}
+    fn is_debug<T: Debug>() {}
+    fn is_display<T: Display>() {}
+    fn is_send<T: Send>() {}
+    fn is_sync<T: Sync>() {}
+    fn is_static<T: 'static>() {}
+    is_error::<TaError>(); is_clone::<TaError>(); is_partial_eq::<TaError>(); is_eq::<TaError>(); is_debug::<TaError>();
+    is_display::<TaError>(); is_send::<TaError>(); is_sync::<TaError>(); is_static::<TaError>();
+    let _: Box<dyn std::error::Error + Send + Sync + 'static> = Box::new(TaError::InvalidParameter);
+    // DataItem provides all five price traits, is Clone + Debug + PartialEq (a clone compares equal) and is what the
+    // indicators' Next<&DataItem> consumes
     fn item<T: Open + High + Low + Close + Volume + Clone + Debug + PartialEq>() {}
     item::<DataItem>();
+    is_clone::<DataItem>(); is_debug::<DataItem>(); is_partial_eq::<DataItem>();
+    // output structs, bound by bound
+    macro_rules! out_each { ($($t:ty),*) => { $( is_clone::<$t>(); is_debug::<$t>(); is_partial_eq::<$t>(); )* }; }
+    out_each!(MovingAverageConvergenceDivergenceOutput, PercentagePriceOscillatorOutput, BollingerBandsOutput, KeltnerChannelOutput, ChandelierExitOutput);
 }
